@@ -2,7 +2,7 @@
    Theorems only, about the topic model Sys/Topic.v (one group topic; the self/search
    and system topics are outside this model, see DESIGN.md section 7). *)
 From Coq Require Import ZArith NArith List Bool.
-From Tinode Require Import Base.Util Pure.Acs Sys.Topic Sys.TopicTac Sys.TopicFrame Sys.TopicNum Sys.TopicOut Sys.TopicNumThm Sys.TopicPub.
+From Tinode Require Import Base.Util Pure.Acs Sys.Topic Sys.TopicTac Sys.TopicFrame Sys.TopicNum Sys.TopicOut Sys.TopicNumThm Sys.TopicPub Sys.TopicMarks Sys.TopicMeta Sys.TopicCoh.
 Import ListNotations.
 Open Scope Z_scope.
 
@@ -40,12 +40,112 @@ Theorem c03_accepted_effect : forall s c n sid u content noecho,
     fanout_data (h_ca (publish NoFault s c n sid u content noecho)) (if noecho then sid else 0%N) (Data (c_lastid c + 1) u content)
     ++ push_out (h_ca (publish NoFault s c n sid u content noecho)) (c_lastid c + 1) u.
 Proof. exact publish_nofault. Qed.
+
+(* ---- the decision is taken on the cache; the authoritative grant is the stored row ---- *)
+
+(* [cohx x]: while the topic is loaded, every user's cached (want, given) is the one of his live
+   stored subscription row, users without a live row have no cache entry, every attached session
+   belongs to a cached user; the store never has two rows for one user.
+   [safe_run]: the history contains neither of the two triggers that the faithful model reproduces
+   (see the refutations below): an {set sub} from a session that is NOT attached while the topic is
+   loaded, and an ownership-transfer acceptance (own want with O while given has O and want has not)
+   with a store fault planned, or on a topic without a cached owner other than the requester. *)
+
+(* Every fault plan: a Fail/Crash at any adapter call of any request keeps cache and store coherent. *)
+Theorem c03_cache_is_store_partial : forall s h, wf_store s ->
+  safe_run dr nr sm (mkState s None 0) h -> cohx (fst (run dr nr sm (mkState s None 0) h)).
+Proof. intros s h W SR. apply run_cohx; [exact SR|exact W]. Qed.
+
+(* acknowledged iff attached and W in both the STORED want and the STORED given of the author *)
+Theorem c03_accepted_iff_stored : forall x sid content noecho, inv_num x -> cohx x ->
+  ((exists n, first_reply (snd (step dr nr sm NoFault x (OPub sid content noecho))) sid = Some (Ctrl 202 [(P_seq, n)]))
+   <-> accepts_stored sm x sid = true).
+Proof.
+  intros x sid content noecho I C. rewrite <- (accepts_stored_eq sm x sid C). exact (accept_iff dr nr sm x sid content noecho I).
+Qed.
+
+(* lifted to histories: after any history with any faults (triggers excluded) *)
+Theorem c03_accepted_iff_stored_history : forall s h sid content noecho, fresh s -> wf_store s ->
+  safe_run dr nr sm (mkState s None 0) h ->
+  let x := fst (run dr nr sm (mkState s None 0) h) in
+  ((exists n, first_reply (snd (step dr nr sm NoFault x (OPub sid content noecho))) sid = Some (Ctrl 202 [(P_seq, n)]))
+   <-> accepts_stored sm x sid = true).
+Proof.
+  intros s h sid content noecho F W SR x. apply c03_accepted_iff_stored.
+  - apply run_inv_num. apply fresh_inv. exact F.
+  - apply run_cohx; [exact SR|exact W].
+Qed.
+
+(* a permission request that leaves the stored grants as they were (refused, or its store call
+   failed) leaves every publish decision as it was *)
+Theorem c03_failed_change_keeps_decision : forall x fo, cohx x -> safe_step sm x fo = true ->
+  (forall u, smodes (st (fst (step_f dr nr sm x fo))) u = smodes (st x) u) ->
+  match ca x, ca (fst (step_f dr nr sm x fo)) with
+  | Some c, Some c' => forall u, is_writer (pud_mode (get_pud c' u)) = is_writer (pud_mode (get_pud c u))
+  | _, _ => True
+  end.
+Proof. exact (grant_kept_decision_kept dr nr sm). Qed.
 End C03.
 
 Print Assumptions c03_accepted_iff.
 Print Assumptions c03_reachable.
 Print Assumptions c03_rejected_no_effect.
 Print Assumptions c03_accepted_effect.
+Print Assumptions c03_cache_is_store_partial.
+Print Assumptions c03_accepted_iff_stored.
+Print Assumptions c03_accepted_iff_stored_history.
+Print Assumptions c03_failed_change_keeps_decision.
+
+(* The full statement - the decision follows the STORED grant after EVERY history - is refuted by the
+   faithful model (and replayed on the real code, findings/C03.md): *)
+Definition c03_stored_iff_statement : Prop :=
+  forall (sm : sessmap) s h sid content noecho, fresh s -> wf_store s ->
+  let x := fst (run (fun _ _ => None) (fun r => r) sm (mkState s None 0) h) in
+  ((exists n, first_reply (snd (step (fun _ _ => None) (fun r => r) sm NoFault x (OPub sid content noecho))) sid
+              = Some (Ctrl 202 [(P_seq, n)]))
+   <-> accepts_stored sm x sid = true).
+
+Definition c03_w_store : store :=
+  ad_sub_create (ad_sub_create (mkStore true 0 0 0 47 0 [] [] [] [(1%N, 47%N); (2%N, 47%N)]) 1%N 255%N 255%N) 2%N 47%N 47%N.
+Definition c03_w_sm : sessmap := [(1%N, 1%N); (2%N, 2%N); (3%N, 2%N)].
+(* trigger 1: user 2 is attached with session 2 and drops W from his want with session 3, which is not
+   attached (replyOfflineTopicSetSub writes the store, the loaded topic keeps the old want) *)
+Definition c03_w_hist1 : list (fault * op) :=
+  [(NoFault, OSub 2 [] false); (NoFault, OSetSub 3 0 [74%N; 82%N; 80%N])].
+(* trigger 2: user 2 holds a pending ownership transfer (O in given) and accepts it with a want without W;
+   the second store call of the transfer fails: want is already stored, the cache keeps the old one *)
+Definition c03_w_store2 : store :=
+  ad_sub_create (ad_sub_create (mkStore true 0 0 0 47 0 [] [] [] [(1%N, 47%N); (2%N, 47%N)]) 1%N 255%N 255%N) 2%N 47%N 255%N.
+Definition c03_w_hist2 : list (fault * op) :=
+  [(NoFault, OSub 2 [] false); (FailAt 2, OSetSub 2 0 [74%N; 82%N; 80%N; 83%N; 79%N])].
+
+Example c03_w_fresh1 : fresh c03_w_store /\ wf_store c03_w_store.
+Proof. split; [split; reflexivity|]. unfold wf_store. vm_compute. repeat constructor; cbn; intuition discriminate. Qed.
+Example c03_w_fresh2 : fresh c03_w_store2 /\ wf_store c03_w_store2.
+Proof. split; [split; reflexivity|]. unfold wf_store. vm_compute. repeat constructor; cbn; intuition discriminate. Qed.
+
+Theorem c03_stored_iff_refuted : ~ c03_stored_iff_statement.
+Proof.
+  intros H. destruct c03_w_fresh1 as [F W].
+  specialize (H c03_w_sm c03_w_store c03_w_hist1 2%N 7%N false F W). cbv zeta in H.
+  destruct H as [H _].
+  assert (A : accepts_stored c03_w_sm (fst (run (fun _ _ => None) (fun r => r) c03_w_sm (mkState c03_w_store None 0) c03_w_hist1)) 2 = false)
+    by (vm_compute; reflexivity).
+  rewrite A in H. assert (X : false = true); [apply H|discriminate X].
+  exists 1. vm_compute. reflexivity.
+Qed.
+Theorem c03_stored_iff_refuted_by_transfer_fault : ~ c03_stored_iff_statement.
+Proof.
+  intros H. destruct c03_w_fresh2 as [F W].
+  specialize (H c03_w_sm c03_w_store2 c03_w_hist2 2%N 7%N false F W). cbv zeta in H.
+  destruct H as [H _].
+  assert (A : accepts_stored c03_w_sm (fst (run (fun _ _ => None) (fun r => r) c03_w_sm (mkState c03_w_store2 None 0) c03_w_hist2)) 2 = false)
+    by (vm_compute; reflexivity).
+  rewrite A in H. assert (X : false = true); [apply H|discriminate X].
+  exists 1. vm_compute. reflexivity.
+Qed.
+Print Assumptions c03_stored_iff_refuted.
+Print Assumptions c03_stored_iff_refuted_by_transfer_fault.
 
 Example c03_ex_hypotheses_satisfiable :
   let s0 := ad_sub_create (ad_sub_create (mkStore true 0 0 0 47 0 [] [] [] [(1%N, 47%N); (2%N, 47%N)]) 1%N 255%N 255%N) 2%N 3%N 47%N in
